@@ -420,6 +420,36 @@ pub fn tree_queries(r: &mut Rng, c: &mut Case, v: &[u128], bits: u32, budget: us
             _ => c.l(format!("q 0 {}", op)),
         }
     }
+    // larger alphabets: a sweep over (a sample of) *all* symbols — the rare ones with their long codes too —
+    // at their first and last occurrence
+    if distinct.len() > 12 && distinct.len() <= 400 {
+        let step = distinct.len() / 120 + 1;
+        let off = r.below(step as u64) as usize;
+        let mut first: std::collections::HashMap<u128, usize> = std::collections::HashMap::new();
+        let mut cnt: std::collections::HashMap<u128, usize> = std::collections::HashMap::new();
+        for (i, &x) in v.iter().enumerate() {
+            first.entry(x).or_insert(i);
+            *cnt.entry(x).or_insert(0) += 1;
+        }
+        for &sy in distinct.iter().skip(off).step_by(step) {
+            let p = first[&sy];
+            let k = cnt[&sy];
+            for &op in ops {
+                match op {
+                    "get" | "get_unchecked" => c.l(format!("q 0 {} {}", op, p)),
+                    "rank" | "rank_unchecked" | "rank_prefetch" | "rank_prefetch_unchecked" => {
+                        c.l(format!("q 0 {} {} {}", op, sy, p + 1));
+                        c.l(format!("q 0 {} {} {}", op, sy, n));
+                    }
+                    "select" | "select_unchecked" => {
+                        c.l(format!("q 0 {} {} 0", op, sy));
+                        c.l(format!("q 0 {} {} {}", op, sy, k - 1));
+                    }
+                    _ => {}
+                }
+            }
+        }
+    }
 }
 
 fn valid_plain(s: u128, max: u128, n: usize) -> bool {
